@@ -30,7 +30,7 @@ var c11Docs = []struct {
 	{"[[e_cfg_a]]\nRounds = 1\n", "bad", 0, false},
 }
 
-func c11Registry(kind int) lint.Registry {
+func c11Registry(kind int, applies bool) lint.Registry {
 	lint.ZZReset()
 	r := lint.ZZNewRegistry()
 	lint.ZZAddConfigurable(r, kind, 0, "e_cfg_a")
@@ -38,6 +38,7 @@ func c11Registry(kind int) lint.Registry {
 	st := lint.ZZAdd(r, kind, 2, "e_plain", lint.RFC5280, zeroTime, zeroTime)
 	_ = st
 	lint.ZZSetBehaviour(2, true, false, lint.Warn, "plain")
+	lint.ZZSetBehaviour(0, applies, false, lint.Pass, "")
 	lint.ZZForget()
 	return r
 }
@@ -50,7 +51,9 @@ func VerifC11Config() {
 	d := c11Docs[di]
 	cfg, err := lint.NewConfigFromString(d.doc)
 	zz.Assert(err == nil, "the document is valid TOML")
-	r := c11Registry(kind)
+	// whether the configurable lint's own applicability test accepts the object is arbitrary
+	applies := zz.Bool()
+	r := c11Registry(kind, true)
 	obj := fwObject(kind)
 
 	// run 1: the registry's initial (empty) configuration
@@ -60,6 +63,7 @@ func VerifC11Config() {
 	lint.ZZForget()
 
 	// run 2: after SetConfiguration
+	lint.ZZSetBehaviour(0, applies, false, lint.Pass, "")
 	r.SetConfiguration(cfg)
 	rs := fwRun(kind, obj, r)
 	zz.Assert(rs != nil, "linting returns")
@@ -72,14 +76,17 @@ func VerifC11Config() {
 		return
 	}
 	seen, ran := lint.ZZSeen(0)
-	switch d.class {
-	case "same":
+	switch {
+	case d.class != "bad" && !applies:
+		zz.Cover("configurable lint does not apply")
+		zz.Assert(a.Status == lint.NA && !ran, "a well-configured lint that does not apply reports NA")
+	case d.class == "same":
 		zz.Cover("unrelated or empty configuration")
 		zz.Assert(ran && seen.Rounds == 100 && !seen.Skip && a.Status == lint.Pass, "an empty configuration or one with only unrelated sections leaves the lint's behaviour unchanged")
-	case "set":
+	case d.class == "set":
 		zz.Cover("option set")
 		zz.Assert(ran && seen.Rounds == d.rounds && seen.Skip == d.skip && a.Status == lint.Pass, "setting the lint's options changes what the lint sees from the next run on")
-	case "bad":
+	case d.class == "bad":
 		zz.Cover("section cannot be applied")
 		zz.Assert(a.Status == lint.Fatal, "a section that cannot be applied makes exactly that lint report fatal")
 		zz.Assert(strings.Contains(a.Details, "A fatal error occurred while attempting to configure e_cfg_a"), "the fatal result carries the configuration error message")
@@ -99,8 +106,58 @@ func VerifC11Config() {
 	lint.ZZForget()
 	fr, ferr := r.Filter(lint.FilterOptions{IncludeNames: []string{"e_cfg_a"}})
 	zz.Assert(ferr == nil && fr != nil && fr.GetConfiguration() == cfg, "a filtered registry inherits the configuration")
-	fresh := c11Registry(kind)
+	fresh := c11Registry(kind, true)
 	rs3 := fwRun(kind, obj, fresh)
 	s3, ran3 := lint.ZZSeen(0)
 	zz.Assert(rs3 != nil && ran3 && s3.Rounds == 100 && !s3.Skip, "configuration does not leak into another registry")
+
+	// ... nor between runs: going back to an empty configuration restores the defaults
+	lint.ZZForget()
+	lint.ZZSetBehaviour(0, true, false, lint.Pass, "")
+	r.SetConfiguration(lint.NewEmptyConfig())
+	rs4 := fwRun(kind, obj, r)
+	s4, ran4 := lint.ZZSeen(0)
+	zz.Assert(rs4 != nil && ran4 && s4.Rounds == 100 && !s4.Skip, "replacing the configuration by an empty one restores the constructor defaults on the next run")
+}
+
+// VerifC04ConfigOrder: a configurable lint is configured first, on the fresh
+// instance, and only then asked whether it applies; a configuration error ends
+// the execution before the applicability test.
+func VerifC04ConfigOrder() {
+	kind := zz.Param("fw.kind", 0)
+	di := zz.Int()
+	zz.Assume(di >= 0 && di < len(c11Docs))
+	d := c11Docs[di]
+	cfg, err := lint.NewConfigFromString(d.doc)
+	zz.Assert(err == nil, "the document is valid TOML")
+	applies := zz.Bool()
+	r := c11Registry(kind, applies)
+	r.SetConfiguration(cfg)
+	obj := fwObject(kind)
+	lint.ZZForget()
+	rs := fwRun(kind, obj, r)
+	zz.Assert(rs != nil && rs.Results["e_cfg_a"] != nil, "the lint has a result")
+	if rs == nil || rs.Results["e_cfg_a"] == nil {
+		return
+	}
+	res := rs.Results["e_cfg_a"]
+	ev := fwEvents(0)
+	zz.Assert(len(ev) >= 1 && ev[0].What == "configure", "a configurable lint is configured before anything else is asked of it")
+	asked := false
+	for _, e := range ev {
+		if e.What == "applies" || e.What == "execute" {
+			asked = true
+			zz.Assert(e.Inst == ev[0].Inst, "the configured instance is the one that is asked and run")
+		}
+	}
+	if d.class == "bad" {
+		zz.Cover("configuration error")
+		zz.Assert(res.Status == lint.Fatal && !asked, "a configuration error ends the execution before the applicability test")
+	} else if !applies {
+		zz.Cover("configured, does not apply")
+		zz.Assert(res.Status == lint.NA, "a configured lint that does not apply reports NA")
+	} else {
+		zz.Cover("configured and run")
+		zz.Assert(res.Status == lint.Pass, "a configured, applicable lint reports its body's verdict")
+	}
 }
